@@ -127,7 +127,7 @@ def nsAt (t : Tabs) (st : SM.St) (q : Path) : Ns := fun x =>
 /-- the member entry a cells identity stands for: space, name, entry -/
 def cellInfo (t : Tabs) (st : SM.St) (c : CellId) : Option (Path × String × SM.Member) :=
   match t.cellOf c with
-  | some (q, x) => (st.mem .cells q x).map (fun m => (q, x, m))
+  | some (q, x) => if t.cid q x == c then (st.mem .cells q x).map (fun m => (q, x, m)) else none
   | none => none
 
 def envOf (P : Params) (t : Tabs) (st : SM.St) : Env where
@@ -152,10 +152,7 @@ def envOf (P : Params) (t : Tabs) (st : SM.St) : Env where
     match t.refOf r with
     | some (q, _) => cellsOf t st q
     | none => []
-  alive := fun c =>
-    match cellInfo t st c with
-    | some (q, x, _) => t.cid q x == c
-    | none => false
+  alive := fun c => (cellInfo t st c).isSome
   siblings := fun c =>
     match t.cellOf c with
     | some (q, _) => cellsOf t st q
